@@ -88,7 +88,7 @@ MdibOf(v) == [desc |-> {"mds", "s1", "s2", "s3", "cd1", "cd2"},
               single |-> {"mds", "s1", "s2"} \cup (IF v.s3 THEN {"s3"} ELSE {}),
               ctx |-> CtxOf("cd1", <<"c11", "c12">>, v.n1) \cup CtxOf("cd2", <<"c21", "c22">>, v.n2)]
 AllReqHandles == {"mds", "s1", "s2", "s3", "cd1", "cd2", "c11", "c12", "c21", "c22", "unk"}
-QuickReqHandles == AllReqHandles \ {"s2", "c22"}
+QuickReqHandles == AllReqHandles \ {"s2", "c21", "c22"}
 Requests == UNION {[1..n -> ReqHandles] : n \in 0..MaxLen}
 HCases == [kind : {"h"}, v : Variants, req : Requests]
 
@@ -181,10 +181,11 @@ AllRV == {"a1", "a12", "ab1", "rag", "full"}
 AllLG == {"en", "both"}
 AllWL == {"x1", "s2", "x1l2", "x2l1", "s12", "all"}
 AllSpecials == {"empty", "raglang", "ragref", "ragver"}
-AllStoreIds == [rv : AllRV, lg : AllLG, wl : AllWL] \cup [rv : {"x"}, lg : AllSpecials, wl : {"-"}]
-QuickStoreIds == [rv : {"a12", "rag", "full"}, lg : {"both"}, wl : {"x1l2", "x2l1", "all"}]
+AllStoreIds == [rv : AllRV, lg : {"both"}, wl : AllWL] \cup [rv : {"a1", "full"}, lg : {"en"}, wl : AllWL]
+                 \cup [rv : {"x"}, lg : AllSpecials, wl : {"-"}]
+QuickStoreIds == [rv : {"rag", "full"}, lg : {"both"}, wl : {"x2l1", "all"}]
                    \cup [rv : {"a1"}, lg : {"en"}, wl : {"s2"}]
-                   \cup [rv : {"x"}, lg : AllSpecials, wl : {"-"}]
+                   \cup [rv : {"x"}, lg : {"empty", "ragref", "ragver"}, wl : {"-"}]
 
 AllFRefs == {<<>>, <<"r1">>, <<"r1", "r2">>, <<"rx">>, <<"rx", "r1">>}
 AllFVers == {<<>>, <<1>>, <<2>>, <<3>>}
